@@ -278,3 +278,93 @@ Example own_reply_with_returns_nonvacuous :
   mild 1 [NDeclareOk] (1%nat, {| f_name := NHeader; f_num := 0; f_str := [] |}) = true /\
   mild 1 [NDeclareOk] (1%nat, {| f_name := NDeclareOk; f_num := 1; f_str := [] |}) = false.
 Proof. vm_compute. auto. Qed.
+
+(* ---------- C13: the verdict on a confirmed publish, returns of earlier messages included ---------- *)
+Lemma chan_check_waitingR_clean s c u names v :
+  WaitingR s c u names v -> c_errs v = [] -> chan_check s c v = (s, v, Ok tt).
+Proof.
+  intros W He. unfold chan_check. rewrite (conn_check_ok s (r_conn _ _ _ _ _ W)), He, (r_state _ _ _ _ _ W).
+  reflexivity.
+Qed.
+
+Theorem publish_confirm_outcome_with_returns s c v pre tpre f tpost rest :
+  c <> 0%nat -> get_chan (s_chans s) c = Some v -> conn_healthy s -> s_io s = true ->
+  s_sendfail s = false ->
+  c_state v = OPEN -> c_errs v = [] -> c_req v = [] -> c_resp v = [] -> c_confirm v = true ->
+  forallb (fun t => forallb (mild c [NAck; NNack]) t) pre = true ->
+  forallb (mild c [NAck; NNack]) tpre = true ->
+  in_names (f_name f) [NAck; NNack] = true ->
+  exists s' v',
+    do_publish (pre ++ (tpre ++ (c, f) :: tpost) :: rest) s c v false
+      = (s', v', RBool (fname_eqb (f_name f) NAck), rest) /\
+    c_req v' = [] /\ c_resp v' = [].
+Proof.
+  intros Hc Hreg Hh Hio Hsf Hst Herr Hreq Hresp Hconf Hpre Htpre Hn.
+  assert (Hnc : is_content (f_name f) = false).
+  { unfold in_names in Hn. cbn in Hn. destruct (f_name f); try discriminate; reflexivity. }
+  unfold do_publish. rewrite Hconf. unfold register. rewrite Hreg. cbv zeta.
+  set (u := s_uuid s).
+  set (v1 := with_rpc v (fold_left (fun rq n => req_set rq n u) [NAck; NNack] (c_req v)) (resp_set (c_resp v) u [])).
+  set (s1 := {| s_conn := s_conn s; s_cerrs := s_cerrs s; s_chans := set_chan (s_chans s) c v1;
+                s_uuid := S u; s_out := s_out s; s_io := s_io s; s_in := s_in s;
+                s_sendfail := s_sendfail s |}).
+  assert (W1 : WaitingR s1 c u [NAck; NNack] v1).
+  { constructor.
+    - exact Hc.
+    - unfold s1. cbn [s_chans]. apply get_set_same.
+    - exact Hh.
+    - exact Hio.
+    - exact Hsf.
+    - exact Hst.
+    - unfold v1. cbn [c_errs with_rpc]. rewrite Herr. constructor.
+    - intros n. unfold v1. cbn [c_req with_rpc]. rewrite req_fold_get, Hreq. reflexivity.
+    - unfold v1. cbn [c_resp with_rpc]. rewrite Hresp. cbn. now rewrite Nat.eqb_refl. }
+  unfold chan_write. rewrite (chan_check_waitingR_clean s1 c u _ v1 W1) by (unfold v1; exact Herr).
+  set (s2 := write_many s1 c [(WPublish, []); (WHeader, []); (WBody, [])]).
+  set (v2 := with_pubs v1 (c_pubs v1 + 1)).
+  assert (W2 : WaitingR (upd s2 c v2) c u [NAck; NNack] v2).
+  { assert (W2' : WaitingR s2 c u [NAck; NNack] v1).
+    { destruct W1 as [A1 A2 A3 A4 A5 A6 A7 A8 A9]. unfold s2, write_many.
+      unfold s1 in *. cbn in *. rewrite !Hsf.
+      constructor; cbn; auto. }
+    apply (waitingR_upd s2 c u _ v1 v2 W2'); try reflexivity. apply W2'. }
+  assert (Hsh : Shape (upd s2 c v2) c (c_req v2) [u]).
+  { exists v2. split; [apply W2|]. split; [reflexivity|].
+    unfold v2, v1. cbn [c_resp with_rpc with_pubs]. rewrite Hresp. reflexivity. }
+  unfold get_request, cur. rewrite (r_reg _ _ _ _ _ W2), (r_resp _ _ _ _ _ W2).
+  destruct (wait_rpc_reply_R pre (upd s2 c v2) c u _ v2 [] tpre f tpost rest _ _ W2 Hsh Hpre Htpre Hn Hnc)
+    as (s3 & v3 & E & Hreg3 & (l & Hl) & (v3' & Hreg3' & Hq3 & Hk3) & _).
+  rewrite E, Hl. cbv iota beta.
+  assert (v3' = v3) by congruence. subst v3'.
+  assert (Hreq' : req_del_uuid (c_req v3) u = []).
+  { rewrite Hq3. apply req_del_all. unfold v2, v1. cbn [c_req with_rpc with_pubs].
+    apply req_fold_all. rewrite Hreq. intros kv []. }
+  assert (Hresp' : resp_del (c_resp v3) u = []).
+  { unfold resp_del. destruct (c_resp v3) as [|[k x] [|y r]]; try discriminate.
+    cbn [map fst] in Hk3. injection Hk3 as ->. cbn [filter fst]. now rewrite Nat.eqb_refl. }
+  eexists _, _. split; [reflexivity|]. cbn [c_req c_resp with_rpc]. auto.
+Qed.
+
+(* ---------- C14: consume returns the tag the broker confirmed, returns included ---------- *)
+Theorem consume_confirmed_tag_with_returns s c v tag pre tpre f tpost rest :
+  c <> 0%nat -> get_chan (s_chans s) c = Some v -> conn_healthy s -> s_io s = true ->
+  s_sendfail s = false ->
+  c_state v = OPEN -> c_errs v = [] -> c_req v = [] -> c_resp v = [] ->
+  forallb (fun t => forallb (mild c [NConsumeOk]) t) pre = true ->
+  forallb (mild c [NConsumeOk]) tpre = true -> f_name f = NConsumeOk ->
+  exists s' v',
+    do_consume (pre ++ (tpre ++ (c, f) :: tpost) :: rest) s c v tag = (s', v', RTag (f_str f), rest) /\
+    mem_tag (f_str f) (c_tags v') = true /\ mem_tag (f_str f) (c_cbs v') = true.
+Proof.
+  intros Hc Hreg Hh Hio Hsf Hst He Hq Hr Hpre Htpre Hn. unfold do_consume.
+  destruct (rpc_request_own_reply_with_returns s c v WConsume tag [NConsumeOk] pre tpre f tpost rest
+              Hc Hreg Hh Hio Hsf Hst He Hq Hr Hpre Htpre) as (s1 & v1 & E & _).
+  { unfold in_names. cbn. now rewrite Hn. }
+  { now rewrite Hn. }
+  rewrite E. eexists _, _. split; [reflexivity|]. cbn [c_tags c_cbs with_cbs with_tags].
+  assert (Hm : forall l t, mem_tag t (if mem_tag t l then l else l ++ [t]) = true).
+  { intros l t. destruct (mem_tag t l) eqn:E1; [exact E1|].
+    unfold mem_tag. rewrite existsb_app. cbn. rewrite (proj2 (Lib.ListX.bytes_eqb_spec t t) eq_refl).
+    now rewrite orb_true_r. }
+  split; apply Hm.
+Qed.
